@@ -6,6 +6,7 @@ theorem modules and model driver (kernel re-checks every theorem; axiom audit; f
 are run through the real Rust code and through the Lean model at `Float`, replies compared bit for
 bit; (5) the property oracle is evaluated on the implementation's replies; (6) verdict + evidence."""
 import fcntl
+import hashlib
 import glob
 import importlib
 import json
@@ -61,19 +62,50 @@ class Run:
     # ---------------------------------------------------------------- build / proof engine
     def extract(self):
         fn = getattr(self.mod, "EXTRACT", None)
-        if not fn:
-            return
         self.tie_notes = []
-        try:
-            files = fn(common.REPO)
-        except common.SourceDrift as e:  # part of the source left the translated subset: correspondence-only for it
-            files = e.files
-            self.tie_notes = [x for x in str(e).split(" || ") if x]
-            for n in self.tie_notes:
-                self.say("NOTE property=%s source tie not re-established (this run relies on the bit-exact correspondence for it): %s" % (self.pid, n[:300]))
-        except Exception as e:  # translator could not read the source
-            self.proof_alarms.append(("translator", "extraction failed: %r" % (e,)))
-            return
+        files = {}
+        if fn:
+            try:
+                files = dict(fn(common.REPO))
+            except common.SourceDrift as e:  # part of the source left the translated subset: correspondence-only for it
+                files = dict(e.files)
+                self.tie_notes = [x for x in str(e).split(" || ") if x]
+                for n in self.tie_notes:
+                    self.say("NOTE property=%s source tie not re-established (this run relies on the bit-exact correspondence for it): %s" % (self.pid, n[:300]))
+            except Exception as e:  # translator could not read the source
+                self.proof_alarms.append(("translator", "extraction failed: %r" % (e,)))
+                return
+        # Generated files in this property's import closure that OTHER properties' translators own (wiring tables, constants,
+        # special-function tables the shared model files import): regenerate them too, so that this check never builds its
+        # model over a stale table left behind by a run of another check against a different tree.
+        closure_gen = {m for m in self.module_closure() if m.startswith("Compute.Generated.")}
+        have = {"Compute." + r[len("Compute/"):-len(".lean")].replace("/", ".") for r in files if r.startswith("Compute/")}
+        missing = closure_gen - have
+        if missing:
+            for k in range(1, 21):
+                oid = "c%02d" % k
+                if oid == self.pid.lower() or not missing:
+                    continue
+                try:
+                    om = importlib.import_module("tools.cv." + oid)
+                    ofn = getattr(om, "EXTRACT", None)
+                    if not ofn:
+                        continue
+                    try:
+                        ofiles = dict(ofn(common.REPO))
+                    except common.SourceDrift as e:
+                        ofiles = dict(e.files)
+                except Exception as e:
+                    owned = [m for m in missing if m.split(".")[-1].upper().find(oid.upper()) >= 0]
+                    if owned:
+                        self.proof_alarms.append(("translator(%s)" % oid.upper(), "extraction of %s (imported by this property's model) failed: %r" % (", ".join(sorted(owned)), e)))
+                        missing -= set(owned)
+                    continue
+                for r, content in ofiles.items():
+                    mname = "Compute." + r[len("Compute/"):-len(".lean")].replace("/", ".") if r.startswith("Compute/") else None
+                    if mname in missing:
+                        files[r] = content
+                        missing.discard(mname)
         for rel, content in files.items():
             path = os.path.join(LEAN, rel)
             old = open(path).read() if os.path.exists(path) else None
@@ -139,9 +171,15 @@ class Run:
         hits = []
         for path in sorted(self.module_closure().values()):
             src = strip_lean_comments(open(path).read())
+            rel = os.path.relpath(path, LEAN)
+            src_lines = src.split("\n")
             for m in common.FORBIDDEN_RE.finditer(src):
                 line = src.count("\n", 0, m.start()) + 1
                 tok = m.group(0).strip()
+                if (rel, src_lines[line - 1].strip()) in common.FORBIDDEN_ALLOW:
+                    continue
+                if rel.startswith("Compute/Drv/") and tok.startswith("partial"):
+                    continue
                 hits.append("%s:%d: %s" % (os.path.relpath(path, LEAN), line, tok))
         if hits:
             self.proof_alarms.append(("forbidden-token", "; ".join(hits[:10])))
@@ -215,9 +253,42 @@ class Run:
         open(os.path.join(d, "Cargo.toml"), "w").write(ct)
         return d
 
+    def repo_source_hash(self):
+        h = hashlib.sha256()
+        for base in ("Cargo.toml", "Cargo.lock"):
+            fp = os.path.join(common.REPO, base)
+            if os.path.exists(fp):
+                h.update(base.encode() + b"\0" + open(fp, "rb").read())
+        for root, dirs, files in sorted(os.walk(os.path.join(common.REPO, "src"))):
+            dirs.sort()
+            for fn in sorted(files):
+                fp = os.path.join(root, fn)
+                h.update(os.path.relpath(fp, common.REPO).encode() + b"\0" + open(fp, "rb").read())
+        return h.hexdigest()
+
     def cargo_build(self):
         self.execd = self.exec_dir()
+        # cargo decides freshness of the path dependency by modification times; a tree restored with older time stamps would leave
+        # a stale `compute` library behind the executor.  Pin it by content: when the source hash differs from the one the
+        # library was last built from, drop the library before building.
+        try:
+            hfile = os.path.join(self.execd, "target", ".cv-compute-srchash")
+            cur = self.repo_source_hash()
+            old = open(hfile).read().strip() if os.path.exists(hfile) else None
+            if old != cur:
+                if old is not None:
+                    sh(["cargo", "clean", "--offline", "-p", "compute"], cwd=self.execd, timeout=600)
+                    self.say("[cargo] /repo sources changed since the executor library was built: rebuilding it")
+        except Exception as e:  # noqa
+            cur, hfile = None, None
         rc, out = sh(["cargo", "build", "--offline", "--bin", self.mod.BIN], cwd=self.execd, timeout=3600)
+        if rc == 0 and cur and hfile:
+            try:
+                os.makedirs(os.path.dirname(hfile), exist_ok=True)
+                with open(hfile, "w") as f:
+                    f.write(cur)
+            except Exception:
+                pass
         if rc != 0:
             self.say(out[-3000:])
             self.say("INFRA-ERROR property=%s: executor (and /repo) failed to compile" % self.pid)
@@ -292,12 +363,44 @@ class Run:
 
 
 def write_replay(run, kind, payload):
-    path = os.path.join(run.outdir, "replay-%s-%d.json" % (kind, run.seed))
+    path = os.path.join(run.outdir, "replay-%s-%s-%d.json" % (kind, run.tier, run.seed))
     payload = dict(payload)
     payload.update({"property": run.pid, "kind": kind, "seed": run.seed, "tier": run.tier})
     with open(path, "w") as f:
         json.dump(payload, f, indent=1)
     return path
+
+
+
+def safe_oracle(run, mod, lines, impl, tag="oracle"):
+    """The oracle is Python written against well-formed replies; a reply it cannot digest (NaN where a rational is expected, a short
+    reply, a panic where a value is expected) must not crash the check without a verdict: the exception becomes a proof-style alarm,
+    which the verdict logic turns into a VIOLATION with a replay (no-failing-input-found unless the search finds one)."""
+    try:
+        return list(mod.oracle(lines, impl))
+    except Exception as e:  # noqa
+        import traceback
+        tb = traceback.format_exc()
+        run.proof_alarms.append(("%s-exception" % tag, "the oracle could not digest the implementation's replies: %r\n%s" % (e, tb[-1500:])))
+        return []
+
+
+
+def replay_ctx(mod, lines, idx):
+    """Indices of the request lines a replay needs to reproduce the failure at `idx`: the module's own `replay_context(lines, idx)`
+    (session prefix, the other members of a relational check) when it defines one; otherwise the failing line alone; a failure that
+    is not attached to one line (idx None) keeps the whole batch (capped)."""
+    fn = getattr(mod, "replay_context", None)
+    if fn is not None:
+        try:
+            c = sorted(set(int(i) for i in fn(lines, idx) if 0 <= int(i) < len(lines)))
+            if c:
+                return c[:20000]
+        except Exception:
+            pass
+    if idx is None:
+        return list(range(min(len(lines), 20000)))
+    return [idx]
 
 
 def execute(run, lines):
@@ -315,7 +418,7 @@ def model_reply_at(mlines, model, i):
     return model[j] if mlines[i] is not None and j < len(model) else None
 
 
-def main(argv):
+def _main(argv):
     import argparse
 
     ap = argparse.ArgumentParser()
@@ -394,7 +497,7 @@ def main(argv):
         impl = run.run_impl(lines, tag="replay")
         mlines = [run.model_line(l) for l in lines]
         model = run.run_model([l for l in mlines if l is not None], tag="replay") if have_model else []
-        fails = mod.oracle(lines, impl)
+        fails = safe_oracle(run, mod, lines, impl)
         for i, l in enumerate(lines):
             print("REQ   ", l[:300])
             print("IMPL  ", impl[i][:300])
@@ -403,8 +506,14 @@ def main(argv):
                 print("MODEL ", mr[:300])
         for f in fails:
             print("ORACLE-FAIL line=%s key=%s %s" % (f.idx, f.key, f.msg))
+        rdiffs = run.compare(lines, impl, mlines, model) if have_model else []
+        for i in rdiffs[:20]:
+            print("MODEL-DIFF line=%d" % i)
         if fails:
             print("VIOLATION property=%s replay=%s" % (pid, args.replay))
+            return 1
+        if rdiffs or run.proof_alarms:
+            print("VIOLATION property=%s replay=%s no-failing-input-found" % (pid, args.replay))
             return 1
         return 0
 
@@ -418,7 +527,7 @@ def main(argv):
     else:
         impl = run.run_impl(lines)
         mlines, model, diffs = [None] * len(lines), [], []
-    fails = mod.oracle(lines, impl)
+    fails = safe_oracle(run, mod, lines, impl)
     infra = [i for i, r in enumerate(impl) if r.startswith("! bad-op")]
     if infra:
         run.say("INFRA-ERROR property=%s: executor rejected request line %d: %s" % (pid, infra[0], lines[infra[0]][:200]))
@@ -436,9 +545,7 @@ def main(argv):
     violations = []  # (replay path, suffix)
     if new_fails:
         f = new_fails[0]
-        ctx = []
-        if f.idx is not None:
-            ctx = [f.idx]
+        ctx = replay_ctx(mod, lines, f.idx)
         path = write_replay(run, "oracle", {
             "message": f.msg, "key": f.key, "expected": f.expected,
             "lines": [lines[i] for i in ctx],
@@ -461,14 +568,14 @@ def main(argv):
             else:
                 l2, _ = mod.gen(r2, tier)
             i2 = run.run_impl(list(l2), tag="intensify")
-            f2 = [f for f in mod.oracle(list(l2), i2) if f.key not in known]
+            f2 = [f for f in safe_oracle(run, mod, list(l2), i2, 'oracle(intensify)') if f.key not in known]
             if f2:
                 found = (l2, i2, f2)
                 break
         if found:
             l2, i2, f2 = found
             f = f2[0]
-            ctx = [f.idx] if f.idx is not None else []
+            ctx = replay_ctx(mod, l2, f.idx)
             path = write_replay(run, "oracle", {
                 "message": f.msg, "key": f.key, "expected": f.expected,
                 "lines": [l2[i] for i in ctx], "impl": [i2[i] for i in ctx],
@@ -503,10 +610,10 @@ def main(argv):
             l2 = list(l2)
             i2, ml2, m2, d2 = execute(run, l2)
             drift_rounds_done += 1
-            f2 = [f for f in mod.oracle(l2, i2) if f.key not in known]
+            f2 = [f for f in safe_oracle(run, mod, l2, i2, 'oracle(deepen)') if f.key not in known]
             if f2:
                 f = f2[0]
-                ctx = [f.idx] if f.idx is not None else []
+                ctx = replay_ctx(mod, l2, f.idx)
                 path = write_replay(run, "oracle", {
                     "message": f.msg, "key": f.key, "expected": f.expected,
                     "lines": [l2[i] for i in ctx], "impl": [i2[i] for i in ctx],
@@ -515,6 +622,8 @@ def main(argv):
                 })
                 violations.append((path, ""))
                 break
+            if not d2 and any(n.startswith("oracle(deepen)") for n, _ in run.proof_alarms):
+                d2 = list(range(min(5, len(l2))))
             if d2:
                 d = d2[:5]
                 path = write_replay(run, "unproved", {
@@ -591,6 +700,11 @@ def main(argv):
         "wall_s": round(time.time() - run.t0, 2),
         "violations": len(violations),
     }
+    if discharged == 0:
+        # nothing was proved in this run (the theorem modules did not build): describe the run as what it was
+        ev["coverage"].pop("obligations", None)
+        ev["coverage"].pop("discharged", None)
+        ev["coverage"]["explanation"] = "the theorem modules did not build in this run; only the differential execution below was carried out"
     evdir = os.path.join(OUT, "alt-evidence") if (common.ALT or args.no_build) else EVID   # development runs never touch evidence/
     os.makedirs(evdir, exist_ok=True)
     with open(os.path.join(evdir, pid + ".json"), "w") as f:
@@ -603,3 +717,53 @@ def main(argv):
             print("VIOLATION property=%s replay=%s%s" % (pid, path, suffix), flush=True)
         return 1
     return 0
+
+
+def main(argv):
+    """The interface knows two outcomes: exit 0 (held on everything explored) and exit 1 with a VIOLATION line.  Anything else that can
+    happen to a run - the executor no longer compiles against /repo, a tool times out, an executor rejects a request, an unexpected
+    exception anywhere in the machinery - means that this run did NOT show the property to hold, and is reported as such: a replay
+    file naming what broke, evidence describing the (non-)coverage, `VIOLATION ... no-failing-input-found`, exit 1."""
+    import traceback
+    pid = (argv[0].upper() if argv else "C00")
+    tier = os.environ.get("VERIF_TIER", "quick")
+    for i, a in enumerate(argv):
+        if a == "--tier" and i + 1 < len(argv):
+            tier = argv[i + 1]
+    tier = tier if tier in ("quick", "thorough") else "quick"
+    try:
+        seed = int(os.environ.get("VERIF_SEED", "20260926"))
+    except ValueError:
+        seed = 20260926
+    t0 = time.time()
+    detail = None
+    try:
+        rc = _main(argv)
+        if rc in (0, 1):
+            return rc
+        detail = "the check could not run to a verdict (internal status %r): see the INFRA-ERROR line above" % (rc,)
+    except SystemExit as e:
+        if e.code in (0, 1):
+            return e.code
+        detail = "the check exited with status %r" % (e.code,)
+    except BaseException as e:  # noqa
+        detail = "the machinery raised %r\n%s" % (e, traceback.format_exc()[-3000:])
+    outdir = os.path.join(OUT, pid + ("-alt" if common.ALT else ""))
+    os.makedirs(outdir, exist_ok=True)
+    path = os.path.join(outdir, "replay-unproved-%s-%d.json" % (tier, seed))
+    with open(path, "w") as f:
+        json.dump({"property": pid, "kind": "unproved", "seed": seed, "tier": tier,
+                   "message": "the property is no longer shown to hold: the check could not be carried out on this tree", "detail": detail,
+                   "theorems_or_obligations_failing": [{"name": "check-machinery", "detail": detail}], "lines": []}, f, indent=1)
+    no_build = "--no-build" in argv
+    evdir = os.path.join(OUT, "alt-evidence") if (common.ALT or no_build) else EVID
+    os.makedirs(evdir, exist_ok=True)
+    ev = {"property_id": pid, "tier": tier, "seed": seed, "level": "proof",
+          "coverage": {"evaluations": 0, "distinct_nontrivial": 0,
+                       "rule": "no case was explored: the check could not run to a verdict on this tree (see explanation)",
+                       "samples": [{"what_broke": (detail or "")[:1000]}], "explanation": (detail or "")[:3000], "exhaustive": False},
+          "assumptions": [], "wall_s": round(time.time() - t0, 2), "violations": 1}
+    with open(os.path.join(evdir, pid + ".json"), "w") as f:
+        json.dump(ev, f, indent=1)
+    print("VIOLATION property=%s replay=%s no-failing-input-found" % (pid, path), flush=True)
+    return 1
